@@ -7,7 +7,7 @@ import os
 
 import gen_paths as G
 from core import rng
-from run_suite import canon_vars, has_recursion_error
+from run_suite import canon_vars, has_cycle, has_recursion_error
 
 SPECIAL_CELLS = ['he said "hi"', "a,b", "line\nbreak", "semi;colon", "'single'", " lead", "trail ", "ünï", ""]
 
@@ -134,6 +134,9 @@ def case_archive(case):
     caller, mobs, raised = RG.run_group(cp, "grp", "food", method)
     if raised:
         res["unmodelled"] = raised
+        return res
+    if any(has_cycle(m["variables"]) for m in mobs):
+        res["unmodelled"] = "self-containing variable"
         return res
     if any(has_recursion_error({"errors": m["errors"]}) for m in mobs):
         res["unmodelled"] = "RecursionError"
